@@ -86,6 +86,54 @@ def pipe_run(s, chunk, mode):
         shutil.rmtree(rd, ignore_errors=True)
 
 
+def pipe_lockstep(s, chunk, via):
+    """the slowest possible pipe: every chunk is handed over only after the tool has drained the pipe and is blocked in read() again (observed through
+    /proc/<pid>/syscall), the first chunk only after it blocks on the still empty pipe. via: 'stdin' (the scenario's stdin) or 'packfile' (-F /dev/stdin)"""
+    import time
+    rd = tempfile.mkdtemp(prefix="l", dir=s.base)
+    try:
+        outp = os.path.join(rd, "out")
+        argv = s.argv_fn(s.base, outp)
+        if via == "packfile":
+            i = argv.index("-F")
+            data = open(argv[i + 1], "rb").read()
+            argv = argv[:i + 1] + ["/dev/stdin"] + argv[i + 2:]
+        else:
+            data = open(s.stdin_file(s.base), "rb").read()
+        env = dict(CLEAN_ENV)
+        env["VERIF_ENV_PLAN"] = ""
+        p = subprocess.Popen(argv, stdin=subprocess.PIPE, stdout=subprocess.DEVNULL, stderr=subprocess.PIPE, env=env, cwd=rd)
+
+        def blocked():
+            t0 = time.time()
+            while time.time() - t0 < 30:
+                if p.poll() is not None:
+                    return False
+                try:
+                    f = open("/proc/%d/syscall" % p.pid).read().split()
+                    if f and f[0] == "0" and open("/proc/%d/stat" % p.pid).read().rsplit(")", 1)[1].split()[0] == "S":
+                        return True
+                except OSError:
+                    return False
+                time.sleep(0.001)
+            return False
+        handed = 0
+        try:
+            for i in range(0, len(data), chunk):
+                if not blocked():
+                    break
+                os.write(p.stdin.fileno(), data[i:i + chunk])
+                handed += 1
+        except BrokenPipeError:
+            pass
+        p.stdin.close()
+        err = p.stderr.read()
+        rc = p.wait()
+        return rc, (sha_file(outp) if os.path.exists(outp) else None), err, handed
+    finally:
+        shutil.rmtree(rd, ignore_errors=True)
+
+
 PLAIN = {}
 
 
@@ -191,6 +239,19 @@ def main():
         for p in per[:4]:
             cr.sample(p)
         cr.sample({"example_plans": [j[1] for j in jobs[:3]] + [j[1] for j in jobs[-2:]]})
+        # lock-step pipes: the reader always finds the pipe empty and has to wait for every chunk (also for input files named /dev/stdin)
+        for name, via in (("tar2sqfs-plain", "stdin"), ("tar2sqfs-gzip", "stdin"), ("gensquashfs-packfile-sort-xattr", "packfile")):
+            if name not in base:
+                continue
+            for chunk_sz in ((512,) if cr.quick else (7, 512, 4096)):
+                rc, snap, err, handed = pipe_lockstep(SC[name], chunk_sz, via)
+                pipe_n += 1
+                n_eval += 1
+                distinct.add((name, "lockstep", chunk_sz))
+                if rc != base[name]["rc"] or snap != base[name]["snap"]:
+                    cr.violation("C12|pipe-lockstep|%s|%s" % (SC[name].tool, via), "scenario %s, %s fed through a pipe in lock step (chunk %d bytes, each handed over after the tool blocked in read; %d chunks handed over): rc=%d, output %s\n%s" % (
+                        name, via, chunk_sz, handed, rc, "differs" if snap != base[name]["snap"] else "same", err.decode("latin1")[-500:]),
+                        files={"case.json": json.dumps(dict(scenario=name, pipe="lockstep-" + via, chunk=chunk_sz, plan=""))})
         cr.coverage.update(evaluations=n_eval, distinct_nontrivial=len(distinct), scenarios=per, pipe_runs=pipe_n,
                            rule="Per scenario the undisturbed run's log lists every read/pread/write/pwrite with requested and returned size. Bound 1: every call index x "
                                 "{short count 1, half, n-1, EINTR}; global modes: every transfer capped to 1/7/511/513 bytes; thorough: bound 2 = all pairs of deviations "
